@@ -72,7 +72,23 @@ def main():
         prop = args[0]
         from checker import props as P
         h = importlib.import_module('harness.' + P.PROPS[prop]['harness'])
-        emit(h.run(tier, seed))
+        try:
+            emit(h.run(tier, seed))
+        except Exception as e:  # noqa
+            # An exception that escapes from the library into the harness (innermost frame inside the repository, reached from a
+            # call the harness makes on the unchanged tree without trouble) is an observation about the library, not a harness
+            # failure.  Anything raised by harness code itself stays a checker error.
+            tb = traceback.extract_tb(e.__traceback__)
+            repo = os.path.realpath(os.environ.get('VERIF_REPO', '/repo'))
+            inner = tb[-1] if tb else None
+            if inner is not None and os.path.realpath(inner.filename).startswith(repo + os.sep):
+                emit({'evaluations': 1, 'distinct_nontrivial': 1, 'samples': [], 'rule': 'harness aborted by an exception escaping from the library',
+                      'violations': [{'fingerprint': f'{P.PROPS[prop]["harness"]}:library-exception:{type(e).__name__}:{os.path.basename(inner.filename)}:{inner.name}',
+                                      'clause': 'the library raises no unexpected exception in the scenarios of the harness',
+                                      'case': {'traceback': traceback.format_exc()[-1500:]}, 'observed': f'{type(e).__name__}: {e}'[:300], 'expected': 'no exception',
+                                      'what': f'{type(e).__name__} escaping from {os.path.basename(inner.filename)}:{inner.name} aborted the harness'}]})
+            else:
+                raise
     else:
         raise SystemExit('unknown command')
 
